@@ -841,6 +841,7 @@ class RealBackend(Backend):
         sign = "-" if seconds > 0 else ("+" if seconds < 0 else "")
         a = abs(seconds)
         self.tz = "VST%s%d:%02d" % (sign, a // 3600, (a % 3600) // 60) if seconds else "UTC"
+        self.fixed_offset = seconds  # freezegun does not look at TZ for now(): it is told the offset explicitly
         os.environ["TZ"] = self.tz
         time.tzset()
 
@@ -1142,7 +1143,8 @@ class RealBackend(Backend):
         try:
             if self.clock == "freeze":
                 from freezegun import freeze_time
-                with freeze_time(dt.datetime.fromtimestamp(self.now, dt.timezone.utc).replace(microsecond=self.now_micro)):
+                with freeze_time(dt.datetime.fromtimestamp(self.now, dt.timezone.utc).replace(microsecond=self.now_micro, tzinfo=None),
+                                 tz_offset=dt.timedelta(seconds=getattr(self, "fixed_offset", 0))):
                     res = self._invoke(runner, cli, argv)
             else:
                 res = self._invoke(runner, cli, argv)
